@@ -291,6 +291,7 @@ type instantiator struct {
 	boundMap    map[boundParam]int
 	instances   []*instance
 	instanceMap *container.IntSliceMap[*instance] // [nonterm, boundParam #1, ...] ->
+	sets        map[*TokenSet]*TokenSet           // compound set -> its instantiated copy
 }
 
 func (i *instantiator) resolveInstance(context *instance, nonterm int, args []Arg) *instance {
@@ -326,6 +327,10 @@ func (i *instantiator) allocate(key []int) *instance {
 }
 
 func (i *instantiator) doSet(set *TokenSet) *TokenSet {
+	if ret, ok := i.sets[set]; ok {
+		// Named sets can refer to each other (and to themselves).
+		return ret
+	}
 	switch set.Kind {
 	case Any, First, Last, Precede, Follow:
 		if nt := set.Symbol - len(i.m.Terminals); nt >= 0 {
@@ -337,12 +342,14 @@ func (i *instantiator) doSet(set *TokenSet) *TokenSet {
 		}
 		return set
 	}
-	ret := *set
+	ret := new(TokenSet)
+	*ret = *set
+	i.sets[set] = ret
 	ret.Sub = make([]*TokenSet, 0, len(set.Sub))
 	for _, sub := range set.Sub {
 		ret.Sub = append(ret.Sub, i.doSet(sub))
 	}
-	return &ret
+	return ret
 }
 
 func (i *instantiator) check(context *instance, p *Predicate) bool {
@@ -443,7 +450,7 @@ func (i *instantiator) suffix(args []boundParam) string {
 }
 
 func newInstantiator(m, out *Model) *instantiator {
-	ret := &instantiator{m: m, out: out, boundMap: make(map[boundParam]int)}
+	ret := &instantiator{m: m, out: out, boundMap: make(map[boundParam]int), sets: make(map[*TokenSet]*TokenSet)}
 	ret.instanceMap = container.NewIntSliceMap(ret.allocate)
 	return ret
 }
